@@ -136,11 +136,13 @@ type mctx struct {
 	compLoop bool // inside a v-for of the component body (since the component started)
 	inSupply bool // evaluating supplied content
 	pageLoop bool // inside a v-for of the page
+	inLayout bool // evaluating the layout file itself (not a component it includes)
 }
 
 type model struct {
-	c  Case
-	st *stats
+	c       Case
+	st      *stats
+	content []*hx.N // rendered page, while the layout is evaluated
 }
 
 // expect computes the expected normalised output of the page.
@@ -151,6 +153,14 @@ func expect(c Case) ([]*hx.N, *stats, error) {
 		data[k] = v.Go()
 	}
 	out, err := m.eval(c.Page, mctx{env: &menv{vars: data}})
+	if err != nil || len(c.Layout) == 0 {
+		return out, m.st, err
+	}
+	// The layout is a template of its own: it sees the page data, receives the rendered page as
+	// `content`, and its include tags supply the slots of their own component instances.
+	m.st.add("layout-with-component-instance")
+	m.content = out
+	out, err = m.eval(c.Layout, mctx{env: &menv{vars: data}, inLayout: true})
 	return out, m.st, err
 }
 
@@ -187,6 +197,11 @@ func (m *model) eval(nodes []Node, cx mctx) ([]*hx.N, error) {
 				return nil, err
 			}
 			out = append(out, r...)
+		case "content":
+			if !cx.inLayout || m.content == nil {
+				return nil, fmt.Errorf("content node outside the layout")
+			}
+			out = append(out, &hx.N{Tag: n.Tag, Attrs: map[string]string{"data-m": n.M}, Kids: m.content})
 		case "slot":
 			r, err := m.evalSlot(n, cx)
 			if err != nil {
